@@ -870,6 +870,8 @@ def pareto_sequence(r):
     infeasible = r.random() < 0.3
     if infeasible and r.random() < 0.5:
       meas = [(m, r.choice([5, 6])) if mx else (m, -1) for m, mx in metrics]      # would dominate everything if it counted
+    if len(meas) > 1 and r.random() < 0.4:
+      meas = list(reversed(meas))            # the worker lists the metrics in another order than the study does
     seq.append(('CompleteTrial', 1, 1, tid, meas, infeasible))
     if r.random() < 0.7:
       seq.append(('ListOptimalTrials', 1, 1))
